@@ -101,7 +101,7 @@ func hashOf(s string) int {
 }
 
 func oneTree(run *core.Run, c *gram.Case, slots []gram.Slot, nops int, tier string) {
-	renderings := [][]string{c.Min, c.Full}
+	renderings := [][]string{c.Min, c.Full, c.Atoms}
 	renderings = append(renderings, c.One...)
 	h := hashOf(strings.Join(c.Min, " "))
 	for si, sl := range slots {
